@@ -421,8 +421,8 @@ def rel_last_counts(s):
 
 
 def relative_sum_overflows_timedelta(s):
-    """class predicate: every count fits i64 and every count*unit fits TimeDelta, but their SUM exceeds
-    TimeDelta::MAX: `TimeDelta + TimeDelta` panics (the process aborts) instead of a clean rejection"""
+    """class predicate of (fixed, /repo e15fcf7e) defect: every count fits i64 and every count*unit fits TimeDelta,
+    but their SUM exceeds TimeDelta::MAX: `TimeDelta + TimeDelta` panicked (the process aborted) instead of a clean rejection"""
     if s is None:
         return False
     last = rel_last_counts(s)
@@ -814,7 +814,7 @@ def run(ctx):
     for i in bad_rc:
         a, b, tzs = bcases[i]
         if bres[i]["rc"] in (134, -6) and (relative_sum_overflows_timedelta(a) or relative_sum_overflows_timedelta(b)):
-            panics += 1          # rejected, but by a panic: known finding
+            panics += 1          # rejected, but by a panic: the defect repaired by /repo e15fcf7e (a regression if seen again)
             ctx.failure(dict(a=a, b=b, tz_offset=tzs, kind="relative form whose sum of units exceeds TimeDelta::MAX"),
                         "rejected with exit status 1 and a message", "rc=134 (panic in `TimeDelta + TimeDelta`, process aborted)",
                         ["relative_sum_overflows_timedelta"])
@@ -935,7 +935,7 @@ def run(ctx):
         language_witnesses=len(EXTRAS) + len(OUTSIDE), language_witness_disagreements=wit_bad, sum_overflow_panics=panics)
     ctx.assumptions += [
         "arguments are ASCII (is_alphabetic / is_whitespace / \\d of the Rust code are modelled for ASCII only); no NUL",
-        "a relative form whose sum of units exceeds TimeDelta::MAX aborts the process (rc 134): recorded as a known finding, the model's DurExit",
+        "a relative form whose sum of units exceeds TimeDelta::MAX is 'not parseable' (checked_add, /repo e15fcf7e); before that commit it aborted the process (rc 134): regression lemma about wdhms_gen true",
         "chrono 0.4.40 parse_from_str for the specifiers %Y %m %d %H %M %S %s %3f %6f %z %:z %#z %Z, to_naive_datetime_with_offset, to_datetime, TimeDelta::try_*, checked_add_signed are transcribed by hand (Model/CliDt.v) and tied only by run B; second=60 (leap second) and instants within a day of chrono's MIN/MAX are outside run B's generator",
         "the relative-offset regular expression is modelled as a hand-written recogniser for exactly the expression assembled in REGEX_DUR_OFFSET (shape checked by the translator: [^]type addsub ( unit | ... )+[$]); the regex crate itself is exercised only by runs B and C",
         "the summary prints bounds to whole seconds; sub-second digits are tied through the effect on a probe log (1 us around the bound), for years 1971-2098",
